@@ -4,9 +4,14 @@
 (* TLC's simulator picks uniformly among the successor states, so the program length is fixed per behaviour from the *)
 (* behaviour's number (all lengths 1..MaxSteps equally often), the tampering KIND is picked before its parameters    *)
 (* (kinds with many parameters, like an altered argument, do not crowd out the others) and the untampered            *)
-(* submission is weighted up (it is the first clause of the property).                                               *)
+(* submission is weighted up (it is the first clause of the property), as are the tamperings that need two written  *)
+(* keys.                                                                                                             *)
 EXTENDS Contract, Json
 TLen == (TLCGet("stats").traces % MaxSteps) + 1
+(* the parameters of the tampering are drawn with RandomElement: the simulator's own choice among the successors of Submit is *)
+(* correlated with its preceding choice of the kind (measured: read_ver always with the same version, fee_below always      *)
+(* "absent"), so it would leave most parameter values unexercised                                                          *)
+GenSubmit == phase = "kind" /\ LET P == Params(tkind, Honest(resp, prog, amt)) IN P # {} /\ DoSubmit(RandomElement(P), "")
 GenNext ==
   \/ \E f \in [Keys -> KeyStates] : Setup(f)
   \/ (Len(prog) < TLen /\ \E s \in Steps : AddStep(s))
@@ -15,7 +20,8 @@ GenNext ==
   \/ \E n \in Keys : Interpose(n)
   \/ \E k \in TamperKinds : PickKind(k)
   \/ \E i \in 1..3 : PickKind("none")
-  \/ Submit
+  \/ \E i \in 1..4 : \E k \in {"write_dup", "write_swap"} \cap TamperKinds : PickKind(k)      \* enabled only with two written keys: rare
+  \/ GenSubmit
   \/ GiveUp
 GenSpec == Init /\ [][GenNext]_vars
 Dump == phase # "done" \/ (JsonSerialize("out/b_" \o ToString(TLCGet("stats").traces) \o ".json", hist) /\ FALSE)
